@@ -668,6 +668,25 @@ def describe(t):
     return str(t)
 
 
+def private_calls_only(prog, f):
+    """number of call sites of the private function f in its module when every reference to its name is such a call (0 otherwise:
+    a reference that is not a call - stored in a table, passed on - could be invoked with any argument)"""
+    calls = refs = 0
+    called = set()
+    for n in ast.walk(f.mod.tree):
+        if isinstance(n, ast.Call):
+            fn = n.func
+            if (isinstance(fn, ast.Name) and fn.id == f.name) or (isinstance(fn, ast.Attribute) and fn.attr == f.name and norm(fn.value) in ('self', 'cls', 'super()')):
+                calls += 1
+                called.add(id(fn))
+    for n in ast.walk(f.mod.tree):
+        if id(n) in called:
+            continue
+        if (isinstance(n, ast.Name) and n.id == f.name and isinstance(n.ctx, ast.Load)) or (isinstance(n, ast.Attribute) and n.attr == f.name and isinstance(n.ctx, ast.Load)):
+            refs += 1
+    return calls if refs == 0 else 0
+
+
 def d6(ctx, prog, modname, rule):
     effs = {}
     n = 0
@@ -686,6 +705,10 @@ def d6(ctx, prog, modname, rule):
                 roots = set(cl[1])
                 if roots and all(r.startswith('self.') for r in roots):
                     ctx.ok(rule, key, f'{desc}: instance scratch attribute', f.where(st))
+                elif f.name.startswith('_') and not f.name.startswith('__') and all(r.startswith('param:') for r in roots) and private_calls_only(prog, f):
+                    # a private helper that works in the buffer its caller hands it: whether that buffer is the caller's own is
+                    # judged at each call site (the `writes its parameter` events of the calling functions, same rule)
+                    ctx.ok(rule, key, f'{desc}: private helper, the argument is judged at its {private_calls_only(prog, f)} call site(s)', f.where(st))
                 elif f.name == '_prepare_rounds' and roots == {'param:operations'}:
                     ctx.ok(rule, key, f'{desc}: judged by the template-ownership clause', f.where(st))
                 else:
@@ -709,7 +732,7 @@ def run(ctx, prog):
     n3 = compose(ctx, prog, steps, ci, disp)
     d4(ctx, prog, ci)
     from .c05 import buffer_dtypes
-    ctx.floor('buffer allocations judged (des)', buffer_dtypes(ctx, prog, D, 'C06-D2'), 8)
+    ctx.floor('buffer allocations judged (des)', buffer_dtypes(ctx, prog, D, 'C06-D2'), 3)
     n5 = d5(ctx, prog, ci)
     n6 = d6(ctx, prog, D, 'C06-D6')
     ctx.floor('permutation output bits decided', nbits, 64 + 64 + 48 + 32 + 32)
